@@ -336,56 +336,15 @@ def check_chunks_partition(repo, rep, rid="C12-R6"):
 
 
 def check_structure(repo, rep):
+    from props import sessions as S
     rid = "C12-R1"
-    rep.rule(rid, "phase agreement of the two simulators (helpers inlined): same prologue, same per-iteration protocol [match -> "
-                  "strategies -> prune active orders -> flush market orders -> daily sample], same epilogue; the route-due test and the "
-                  "aggregation guard of the fast simulator equal the normal ones with i+1 replaced by i+candles_step")
-    want = {"_simulate_price_change_effect", "_simulate_price_change_effect_multiple_candles", "_execute", "update_active_orders",
-            "execute_pending_market_orders", "save_daily_portfolio_balance", "_terminate", "_prepare_routes", "_prepare_times_before_simulation"}
-    views = {}
-    for sim in ("_step_simulator", "_skip_simulator"):
-        v = SL.sim_view(repo, sim, want)
-
-        def nm(evs):
-            out = []
-            for e in evs:
-                if e[0] == "call":
-                    out.append("match" if e[1].startswith("_simulate_price_change_effect") else e[1])
-                elif e[0] in ("iter", "loop", "endloop") and e[1] in ("routes", "sym"):
-                    out.append(f"{e[0]}:{e[1]}")
-            return tuple(out)
-        views[sim] = {k: sorted({nm(t) for t in v[k]}) for k in ("pre", "iters", "post")}
-    for part in ("pre", "iters", "post"):
-        a, b = views["_step_simulator"][part], views["_skip_simulator"][part]
-        if a != b:
-            only_a = [x for x in a if x not in b][:2]
-            only_b = [x for x in b if x not in a][:2]
-            rep.violation(rid, f"phases|{part}", f"the {part} phase sequences of the two simulators differ: normal-only {only_a}, fast-only {only_b}")
-        rep.instance(rid, f"phases|{part}", {"part": part, "paths": len(a)})
-    # guards under substitution
-    def due_tests(fn):
-        out = []
-        for n in ast.walk(fn):
-            if isinstance(n, ast.If):
-                for t in [n.test]:
-                    if isinstance(t, ast.Compare) and isinstance(t.left, ast.BinOp) and isinstance(t.left.op, ast.Mod) and \
-                            any(isinstance(c, ast.Call) and SL.last(SL.dotted(c.func)) == "_execute" for s in n.body for c in ast.walk(s)):
-                        out.append(t)
-        return out
-    step_fn = repo.func(BT, "_step_simulator")
-    fast_fn = repo.func(BT, "_execute_routes") if repo.has_func(BT, "_execute_routes") else repo.func(BT, "_skip_simulator")
-    ts, tf_ = due_tests(step_fn), due_tests(fast_fn)
-    if len(ts) != 1 or len(tf_) != 1:
-        raise AnalysisError(f"route-due tests not found (normal {len(ts)}, fast {len(tf_)})")
-    Es, Ef = to_poly(ts[0].left.left), to_poly(tf_[0].left.left)
-    # the fast expression is (index + step); with step := 1 and its index renamed it must equal the normal one (i + 1)
-    fa = sorted(a for a in Ef.atoms())
-    ok = Es is not None and Ef is not None and len(fa) == 2 and Ef == Poly.atom(fa[0]) + Poly.atom(fa[1]) and \
-        Es == Poly.atom(sorted(Es.atoms())[0]) + Poly.const(1) and to_poly(ts[0].left.right) is not None
-    if not ok:
-        rep.violation(rid, "route-due-test", f"route-due tests do not correspond: normal `{norm(ts[0])}`, fast `{norm(tf_[0])}`")
-    rep.instance(rid, "route-due-test", {"normal": norm(ts[0]), "fast": norm(tf_[0])})
-    rep.floor(rid, 4)
+    rep.rule(rid, "phase agreement of the two simulators: both simulator functions are interpreted whole on mini sessions (one / two "
+                  "symbols, a data symbol, 1m / 3m / 5m / 15m routes, tails shorter than a chunk; matcher, strategies, order store, "
+                  "equity sampler recorded): same prologue; after every minute the fast simulator steps over, and at every chunk end, it "
+                  "does exactly what the normal simulator does after that minute [strategies whose candle closed -> prune the route's "
+                  "active orders -> flush market orders]; the minutes it leaves to its chunk matcher are minutes after which the normal "
+                  "simulator executes no strategy; same epilogue")
+    S.check_same_protocol(repo, rep, rid)
 
 
 def check_fast_time(repo, rep):
